@@ -48,6 +48,9 @@ pub enum AuthorisationMessage {
         Sender<Result<()>>,
     ),
     UserForRoom(Uid, Sender<Result<HashSet<Vec<u8>>>>),
+    /// verification hook: returns a clone of the in-memory room
+    #[cfg(feature = "verif")]
+    VerifRoom(Uid, Sender<Option<Room>>),
     // ValidatePeerNodesRequest(Uid, Vec<Vec<u8>>, Sender<Result<Vec<Vec<u8>>>>),
 }
 
@@ -402,6 +405,10 @@ impl AuthorisationService {
                 }
             }
 
+            #[cfg(feature = "verif")]
+            AuthorisationMessage::VerifRoom(room_id, reply) => {
+                let _ = reply.send(auth.rooms.get(&room_id).cloned());
+            }
             AuthorisationMessage::UserForRoom(room_id, reply) => {
                 let _ = reply.send(auth.user_for_room(room_id));
             } // AuthorisationMessage::ValidatePeerNodesRequest(room_id, keys, reply) => {
